@@ -143,7 +143,16 @@ def judge(case):
             fails.append(Failure("C13.well-formed", "tzid-differs", repr(vt.get("TZID"))))
         subs = [s for s in vt.subcomponents if s.name in ("STANDARD", "DAYLIGHT")]
         if not subs:
-            fails.append(Failure("C13.well-formed", "no-observance", ""))
+            # localisation by input: the two bounding midnights are the same instant in the source zone (the window's first day is a
+            # calendar day the zone skipped, Pacific/Fakaofo 2011-12-30), so the window contains no instant at all
+            degenerate = ""
+            try:
+                a_, b_ = datetime(first.year, first.month, first.day), datetime(last.year, last.month, last.day)
+                if hasattr(tz_src, "localize") and not tz_src.localize(a_) < tz_src.localize(b_):
+                    degenerate = "@window-without-duration/pytz"
+            except Exception:  # noqa: BLE001
+                pass
+            fails.append(Failure("C13.well-formed" + degenerate, "no-observance" + degenerate, f"{zone} {first}..{last}"))
         lo, hi = datetime(first.year, first.month, first.day), datetime(last.year, last.month, last.day)
         for s in subs:
             missing = [k for k in ("DTSTART", "TZOFFSETFROM", "TZOFFSETTO", "TZNAME") if k not in s]
@@ -303,6 +312,16 @@ def cases(draw, grid_days=5):
     last = [y1, draw(st.integers(1, 12)), draw(st.integers(1, 28))]
     if not date(*first) < date(*last):
         last = [y0 + 1, first[1], first[2]]
+    if draw(st.integers(0, 3)) == 0:
+        # a short window (days to months) placed around an offset change of the zone
+        from checks.c11_zoned_datetimes import transitions
+        tr = [t for t, _a, _b in (transitions(zone) if zone != "UTC" else []) if 1971 <= t.year <= 2036]
+        if tr:
+            t = draw(st.sampled_from(tr))
+            days = draw(st.sampled_from([1, 2, 7, 30, 45, 50, 63, 64, 65, 100, 190, 366]))
+            f_ = t.date() - timedelta(days=draw(st.integers(0, days - 1)))
+            l_ = f_ + timedelta(days=days)
+            first, last, y1 = [f_.year, f_.month, f_.day], [l_.year, l_.month, l_.day], l_.year
     return {"provider": draw(st.sampled_from(["zoneinfo", "pytz"])), "zone": zone, "first": first, "last": last, "grid_days": grid_days,
             "src_lib": draw(st.sampled_from(["provider", "provider", "other"])), "pre_parse": draw(st.sampled_from([False, False, True])),
             "own_tzp": draw(st.booleans()),
